@@ -31,6 +31,7 @@ RPKG = 'github.com/cloudwego/frugal/internal/reflect'
 JOBSETS['unit'] = {
     'jobs': {t: [
         {'id': 'unit/span-lemma', 'entry': RPKG + '.VerifSpanLemma', 'reach': ['kept', 'fresh'], 'cfg': {'sym_alloc': True}, 'tags': ['unit', 'C06']},
+        {'id': 'unit/descmap', 'entry': RPKG + '.VerifDescMapProtocol', 'reach': ['end'], 'tags': ['unit', 'C08']},
         {'id': 'unit/decoder-malloc', 'entry': RPKG + '.VerifDecoderMalloc', 'reach': ['typed', 'large', 'small'], 'cfg': {'sym_alloc': True}, 'tags': ['unit', 'C06']},
     ] for t in ('quick', 'thorough')},
     'cfg': {'quick': {'timeout_s': 300, 'solver_timeout_ms': 30000}, 'thorough': {'timeout_s': 1800, 'solver_timeout_ms': 120000}},
@@ -112,6 +113,7 @@ PROPS = {
     'C03': {'jobsets': ['decmsg', 'bytes'], 'phases': ['decode'], 'job_filter': r'^(decmsg|bytes)/'},
     'C04': {'jobsets': ['codec'], 'phases': ['encode']},
     'C05': {'jobsets': ['bytes', 'mutmsg'], 'phases': ['decode']},
+    'C08': {'jobsets': ['unit', 'codec', 'decmsg', 'hist'], 'phases': [], 'job_filter': r'unit/descmap|^codec/(Sc|Li_|Mp_s|Df|Uk|Ns|Tw)|^decmsg/|^hist/', 'also_labels': r'^(C08|M-released|deadlock)'},
     'C09': {'jobsets': ['decmsg', 'hist', 'bytes', 'codec'], 'phases': [], 'job_filter': r'Rq|Hs|By_unk|ScA_|ScD_|Id(Lo|Mid|Hi)',
             'also_labels': r'^(C03 a well-formed|C03 every transmitted|C05 DecodeObject succeeds|C02 bytes equal)'},
     'C10': {'jobsets': ['codec', 'decmsg'], 'phases': [], 'job_filter': r'Df|ScD_|LeafD|NsB',
@@ -212,7 +214,16 @@ MANIFEST_TEXT['C12'] = {
     'ref': 'DESIGN.md s7 C12', 'note': _CODEC_NOTE + ' The parser is exercised on the concrete tags of the corpus (an exact interpretation of the real code), values are symbolic; the symbolic-text parser harness (C12(2)) is not built.',
     'technique': 'SSA-level execution of the real tag parser + symbolic codec differential against schema-derived reference'}
 
+MANIFEST_TEXT['C08'] = {
+    'level': 'PARTIAL: no schedule is explored. Decided instead are the synchronisation-discipline invariants that make the result schedule-independent, on the real code: '
+             '(1) the read-lock-free descriptor map under symbolic keys incl. same-bucket collisions: Get returns exactly the last Set, a snapshot taken by a reader before later Sets is never modified '
+             '(every store to memory already published through an atomic pointer is a violation); (2) lock discipline: the plain caches ttypes / prefetchStructDescCache are only accessed, and the descriptor map only '
+             'written, with sdsmu held (checked on every registration the other harnesses perform); (3) steady-state non-interference: during every EncodedSize/EncodeObject/DecodeObject of the codec/decmsg/hist '
+             'harnesses all memory built by registration and package initialisation is frozen - any write is a violation; (4) pooled scratch is never touched after Put (M-released).',
+    'ref': 'DESIGN.md s7 C08', 'note': 'Not covered: interleavings of the registration body with itself beyond the lock discipline, double-checked creation under contention, sync.Pool / reflect / runtime internals, weak-memory effects, deadlock beyond recursive locking. '
+            'Discipline violations have no single-threaded native observable and are reported from the engine\'s execution alone (flagged engine_only_discipline in the replay file). ' + _CODEC_NOTE,
+    'technique': 'SSA-level symbolic execution with synchronisation-discipline monitors (published-immutable, lock-held, frozen shared state)'}
+
 NOT_APPLICABLE = {
-    'C08': 'The engine is a single-threaded recursive interpreter with decision replay; a bounded-interleaving scheduler with a happens-before detector for the descriptor cache was designed (DESIGN.md s7 C08) but is not built, and sync.Pool/runtime internals are outside go/ssa. No schedule is explored, so nothing is claimed.',
     'C18': 'Allocation behaviour is decided by the gc compiler\'s escape analysis/inlining and runtime internals that do not exist at the go/ssa level this technique encodes; measuring MemStats would be a different technique (DESIGN.md s7 C18).',
 }
